@@ -4,6 +4,7 @@ import (
 	"errors"
 	"fmt"
 	"sort"
+	"strings"
 	"sync"
 	"testing"
 	"time"
@@ -130,6 +131,60 @@ func TestC07Seq(t *testing.T) {
 			case x == 0 && s > 0: // reopen: new Channels on the same datastore, cold caches
 				f = f.reopen()
 				reopens++
+				if c.Rng.Intn(2) == 0 && next[d] <= n {
+					// a one-off datastore read error hits the first report of the new lifetime: that report
+					// fails (and counts for nothing); nothing that follows may be counted twice because of it
+					failed := false
+					// Only the report's FIRST read (the existence check) is failed. A failure of a later read - the
+					// load of the state machine - is outside what C07 quantifies over (sequences, replays,
+					// interleavings, process restarts; no I/O faults), and the unchanged library itself loses the
+					// event or wedges that channel's state machine there (DESIGN O6).
+					skip := 0
+					f.ds.SetHook(func(op, key string) error {
+						if (op == "has" || op == "get") && !failed && strings.HasPrefix(key, "/3/") {
+							if skip > 0 {
+								skip--
+								return nil
+							}
+							failed = true
+							return errors.New("injected: datastore hiccup")
+						}
+						return nil
+					})
+					p := next[d]
+					err := report(f, d, chid, p, trav[d][p])
+					f.ds.SetHook(nil)
+					settle()
+					reports++
+					if failed {
+						c.Count("reports_hit_by_datastore_error", 1)
+					}
+					if err == nil || errors.Is(err, datatransfer.ErrPause) {
+						// the report went through after all (the error hit nothing it needed): it counts
+						if trav[d][p].Unique && !seen[d][p] {
+							total[d] += trav[d][p].Size
+						}
+						seen[d][p] = true
+						if int64(p) > index[d] {
+							index[d] = int64(p)
+						}
+						next[d]++
+					} else if next[d] > 1 && c.Rng.Intn(2) == 0 {
+						// ... and the transport, which saw its report fail, replays what it had already sent
+						lo := 1 + c.Rng.Intn(next[d]-1)
+						hi := lo + c.Rng.Intn(next[d]-lo)
+						for q := lo; q <= hi; q++ {
+							report(f, d, chid, q, trav[d][q])
+							reports++
+							if int64(q) > index[d] {
+								index[d] = int64(q)
+							}
+						}
+						replays++
+						settle()
+						c.Count("replays_right_after_failed_report", 1)
+					}
+				}
 				check(fmt.Sprintf("step %d after reopen", s))
 				continue
 			case x <= 2 && next[d] > 1: // replay an earlier range verbatim
